@@ -66,8 +66,10 @@
 //! * **Mapping keys** are strings; a key that would resolve to a non-string is always
 //!   quoted (the JSON encoding of a non-string key is not defined by the statement). No
 //!   explicit `?` keys, no alias keys, no collection keys, keys unique (duplicate-key
-//!   behaviour is a documented open area). No plain `<<` key (merge keys are a documented
-//!   *feature*, mod.rs "Supported"); a `"<<"` key is generated only quoted.
+//!   behaviour is a documented open area). No key whose text is `<<`, quoted or not: merge
+//!   keys are a documented feature (mod.rs "Supported") and the repository documents and
+//!   test-pins that a *quoted* `"<<"` merges too, following yq (light.rs
+//!   `is_merge_key_value`, `test_merge_key_quoted_still_merges`). `<<` still occurs as a value.
 //! * **Block scalars** (`|`, `>` with `-`, `+`, clip): only in block context; content
 //!   indented at least one column (zero-indented block scalars: documented gap
 //!   DK3J/FP8R/W4TN); no explicit indentation indicator, hence the first non-empty content
@@ -275,6 +277,72 @@ pub struct YOpts {
     pub omit_final_newline: bool,
     /// maximal indentation step per collection (1..=6)
     pub indent_max: usize,
+    /// shapes of *open known findings* that the renderer must not produce (DESIGN §2.6:
+    /// excluded by construction while the finding is open; all false = nothing avoided)
+    pub avoid: YAvoid,
+}
+
+/// Trigger shapes of open known findings (see `known_findings.json`). Each flag removes
+/// exactly that shape from the rendered text; the model is never changed.
+#[derive(Clone, Copy, Debug, Default, PartialEq)]
+pub struct YAvoid {
+    /// C14: a block mapping entry with an empty value whose next content line starts at
+    /// column 0 with a quoted key (`a:\n"b": 1` loads as `{"a":"b","b":1}`)
+    pub empty_value_before_col0_quoted_key: bool,
+    /// C14: a document-level anchor followed by a comment on the same line
+    /// (`--- &a # c\n- x` loads the comment text as a scalar document)
+    pub comment_after_root_anchor: bool,
+    /// C18: a compact (same-line) nested collection with two or more entries whose first
+    /// entry holds a block collection on deeper lines (`- a:\n    b: 1\n  c: 2`,
+    /// `- - - a\n    - b\n  - c`): validate() says BadIndentation at the return to the
+    /// compact collection's column. Avoided by writing that first value in flow style.
+    pub compact_collection_return_after_deeper: bool,
+    /// C18: a tab in the separation after `-` when the entry is a flow collection or a
+    /// quoted scalar containing `: ` (`-\t{a: 1}`, `-\t"a: b"`): validate() says
+    /// TabInIndentation (`-\tplain` is pinned as legal by Y79Y/010)
+    pub tab_after_dash_before_flow_or_quoted: bool,
+    /// C18: a plain scalar containing white space followed by `|` or `>` (`a: a | b`):
+    /// validate() says ContentAfterBlockScalarHeader
+    pub pipe_inside_plain: bool,
+    /// C18: a block scalar on a compact line (`- - |`, `- k: |`): the validator measures its
+    /// content against the line's indentation, swallows the following sibling lines, and an
+    /// anchor defined there is later reported as UnknownAnchor
+    pub block_scalar_on_compact_line: bool,
+    /// C14: white space between a *quoted* key and its `:` in a compact sequence-entry
+    /// mapping (`- 'k' : v`: build() fails "expected ':' after key in compact mapping")
+    pub compact_quoted_key_space_colon: bool,
+    /// C14: a tab directly after the closing quote of a quoted scalar or after an alias
+    /// (`'k'\t: v`, `k: "x"\t# c`, `- 'x'\t`, `s: *a\t# c`): build() fails with TabIndentation; after a plain scalar
+    /// the same tab is pinned as separation by tests/yaml_tab_separation_tests.rs /
+    /// yaml_tab_comment_tests.rs
+    pub tab_after_closing_quote: bool,
+    /// C14: a multi-line plain scalar that starts on the line after `-` (or after
+    /// `key: &anchor`) and has a continuation line that is not indented deeper than its
+    /// first line (`-\n aaaa\n b` loads as ["aaaa"], the continuation is dropped; deeper
+    /// continuation lines and the un-anchored mapping form are fine)
+    pub nextline_plain_continuation_not_deeper: bool,
+    /// C14: a literal block scalar whose first content line starts with `#`, with a later
+    /// more-indented line followed by a line back at the block's indentation
+    /// (`k: |-\n  # c\n   a\n  b\nj: 1`: the lines from `b` on are read a second time as
+    /// structure, giving a spurious `"b": "j"` entry)
+    pub literal_hash_first_then_indented: bool,
+    /// C14: a document-root block scalar (a) written without `---`, or (b) carrying an
+    /// anchor (`--- &anchor |`): its content is loaded a second time as a further document
+    /// (`|-\n key: value` gives "key: value", "value"; `--- &a |- #\n a` gives "a", "a")
+    pub root_block_scalar_reread: bool,
+    /// C14 (root cause shared with C17): an empty node at the very end of a text whose
+    /// length is a multiple of 64 (`...k:\n` with len % 64 == 0) reads back as
+    /// `YamlValue::Error("invalid cursor position")`
+    pub empty_node_at_eof_len64: bool,
+}
+
+impl YAvoid {
+    pub fn none() -> Self {
+        Self::default()
+    }
+    pub fn all() -> Self {
+        YAvoid { empty_value_before_col0_quoted_key: true, comment_after_root_anchor: true, compact_collection_return_after_deeper: true, tab_after_dash_before_flow_or_quoted: true, pipe_inside_plain: true, block_scalar_on_compact_line: true, compact_quoted_key_space_colon: true, tab_after_closing_quote: true, nextline_plain_continuation_not_deeper: true, literal_hash_first_then_indented: true, root_block_scalar_reread: true, empty_node_at_eof_len64: true }
+    }
 }
 
 impl YOpts {
@@ -301,11 +369,16 @@ impl YOpts {
             tab_in_plain: true,
             flow_plain_question: true,
             raw_unicode_breaks: true,
-            flow_comments: true,
+            // src/yaml/mod.rs "Supported": "Comments (ignored in block context)" — a comment
+            // *inside* a multi-line flow collection is not documented as supported, so it is
+            // not part of the default space (a comment after a flow collection's close, on a
+            // block line, is block context and is generated)
+            flow_comments: false,
             indented_root: true,
             doc_end_markers: false,
             omit_final_newline: true,
             indent_max: 6,
+            avoid: YAvoid::none(),
         }
     }
     /// `full` minus what PyYAML 6 (a YAML 1.1 implementation) cannot cross-check
@@ -454,6 +527,9 @@ pub fn plain_ok(s: &str, ctx: PlainCtx, o: &YOpts) -> bool {
         if white(w[0]) && w[1] == '#' {
             return false;
         }
+        if o.avoid.pipe_inside_plain && white(w[0]) && (w[1] == '|' || w[1] == '>') {
+            return false;
+        }
     }
     true
 }
@@ -495,6 +571,13 @@ fn block_scalar_shape<'a>(s: &'a str, o: &YOpts, folded: bool) -> Option<(Vec<&'
 
 // ---------------------------------------------------------------- model generation
 
+/// true with probability num/den; **false when the entropy is exhausted or zero**, so that
+/// every optional device disappears when the engine shrinks towards zeros
+/// (`Src::ratio` answers true on zeros).
+fn rare(u: &mut Src, num: u32, den: u32) -> bool {
+    num > 0 && (u.below(den as usize) as u32) >= den.saturating_sub(num)
+}
+
 const AMBIGUOUS: &[&str] = &[
     "null", "Null", "NULL", "~", "true", "True", "FALSE", "false", "yes", "No", "on", "OFF", "y", "n",
     "1", "-5", "+7", "0", "007", "1e3", "0x1F", "0o17", "3.14", ".5", "1.", ".inf", "-.INF", ".nan",
@@ -521,7 +604,7 @@ fn word(u: &mut Src) -> String {
         "map", "yaml", "data", "über", "naïve", "ключ", "值", "Zed", "CamelCase", "snake_case", "kebab-case",
         "dotted.name", "path/to", "v", "tru", "nul", "none", "None", "nil", "TRUE1", "x1", "a-1", "a+b",
     ];
-    if u.ratio(3, 4) {
+    if rare(u, 3, 4) {
         (*u.pick(W)).to_string()
     } else {
         let n = u.range(1, 8);
@@ -559,14 +642,14 @@ fn gen_char(u: &mut Src) -> char {
 /// every kind of tail).
 fn paragraphs(u: &mut Src) -> String {
     let mut s = String::new();
-    if u.ratio(1, 8) {
+    if rare(u, 1, 8) {
         s.push_str(&"\n".repeat(u.range(1, 2)));
     }
     let nlines = u.range(1, 5);
     for i in 0..nlines {
         if i > 0 {
             s.push_str(&"\n".repeat(*u.pick(&[1, 1, 1, 2, 3])));
-            if u.ratio(1, 6) {
+            if rare(u, 1, 6) {
                 s.push_str(&" ".repeat(u.range(1, 3))); // more-indented line (literal only)
             }
         }
@@ -576,7 +659,7 @@ fn paragraphs(u: &mut Src) -> String {
             2 => s.push_str("- item"),
             _ => s.push_str(&sentence(u, 5)),
         }
-        if u.ratio(1, 16) {
+        if rare(u, 1, 16) {
             s.push(' '); // trailing space on a line (literal only)
         }
     }
@@ -589,7 +672,7 @@ pub fn gen_string(u: &mut Src, o: &YOpts) -> String {
         return sentence(u, 3);
     }
     match u.below(20) {
-        0 => String::new(),
+        19 => String::new(),
         1 | 2 => (*u.pick(AMBIGUOUS)).to_string(),
         3 | 4 | 5 => (*u.pick(HOSTILE)).to_string(),
         6 | 7 | 8 => paragraphs(u),
@@ -604,7 +687,7 @@ pub fn gen_string(u: &mut Src, o: &YOpts) -> String {
             let mut s = String::new();
             while s.chars().count() < n {
                 s.push_str(&piece);
-                s.push(if u.ratio(1, 5) { gen_char(u) } else { ' ' });
+                s.push(if rare(u, 1, 5) { gen_char(u) } else { ' ' });
             }
             s.trim_end().to_string()
         }
@@ -625,7 +708,7 @@ pub fn gen_key(u: &mut Src, o: &YOpts) -> String {
         return word(u);
     }
     match u.below(16) {
-        0 => String::new(),
+        15 => String::new(),
         1 => (*u.pick(AMBIGUOUS)).to_string(),
         2 => (*u.pick(HOSTILE)).to_string(),
         3 => {
@@ -634,7 +717,6 @@ pub fn gen_key(u: &mut Src, o: &YOpts) -> String {
         }
         4 => sentence(u, 3),
         5 => format!("{}", u.range_i64(-9, 99)),
-        6 => "<<".to_string(),
         _ => word(u),
     }
 }
@@ -666,16 +748,16 @@ struct GenState {
 fn gen_rec(u: &mut Src, o: &YOpts, depth_left: usize, g: &mut GenState) -> Y {
     g.budget = g.budget.saturating_sub(1);
     // repeat an earlier subtree (makes structurally-equal nodes, the precondition of an alias)
-    if !g.pool.is_empty() && u.ratio(1, 6) {
+    if !g.pool.is_empty() && rare(u, 1, 6) {
         let i = u.below(g.pool.len());
         return g.pool[i].clone();
     }
-    let y = if depth_left == 0 || g.budget == 0 || u.ratio(2, 5) {
+    let y = if depth_left == 0 || g.budget == 0 || !rare(u, 3, 5) {
         gen_scalar(u, o)
     } else {
         gen_container(u, o, depth_left, g)
     };
-    if g.pool.len() < 24 && (y.is_container() || u.ratio(1, 3)) {
+    if g.pool.len() < 24 && (y.is_container() || rare(u, 1, 3)) {
         g.pool.push(y.clone());
     }
     y
@@ -705,6 +787,13 @@ fn gen_container(u: &mut Src, o: &YOpts, depth_left: usize, g: &mut GenState) ->
                 break;
             }
             let mut k = gen_key(u, o);
+            if k == "<<" {
+                // a key whose *decoded* text is `<<` is a merge key in this repository even
+                // when quoted: documented and test-pinned (src/yaml/light.rs
+                // `is_merge_key_value`, `test_merge_key_quoted_still_merges`: "yq merges even a
+                // quoted "<<" key"). Merge keys are outside C14's statement, so no `<<` key.
+                k = "<<<".to_string();
+            }
             let mut t = 0;
             while m.iter().any(|(k2, _)| *k2 == k) {
                 k = format!("{}{}", k, t);
@@ -719,9 +808,9 @@ fn gen_container(u: &mut Src, o: &YOpts, depth_left: usize, g: &mut GenState) ->
 
 pub fn gen_doc(u: &mut Src, o: &YOpts) -> Y {
     let mut g = GenState { budget: o.max_nodes.max(1), pool: vec![] };
-    let spine = o.deep_spine_16 > 0 && u.ratio(o.deep_spine_16, 16);
+    let spine = o.deep_spine_16 > 0 && rare(u, o.deep_spine_16, 16);
     let depth = if spine { 3.min(o.max_depth) } else { o.max_depth };
-    let mut y = if depth > 0 && o.max_nodes > 1 && !u.ratio(1, 6) {
+    let mut y = if depth > 0 && o.max_nodes > 1 && !rare(u, 1, 6) {
         gen_container(u, o, depth, &mut g)
     } else {
         gen_rec(u, o, depth, &mut g)
@@ -913,6 +1002,27 @@ struct R<'o> {
     block_scalar_indent: Option<usize>,
     /// the last line written belongs to a block scalar (final newline must stay)
     last_is_block_scalar: bool,
+    /// for every open block collection: the first token of its *next* entry's line, if any
+    /// (look-ahead for `YAvoid::empty_value_before_col0_quoted_key`)
+    next_tok: Vec<(usize, Option<NextTok>)>,
+    /// the next block mapping key written at column 0 must be plain
+    force_plain_key_col0: bool,
+    /// the next `eol` must not carry a trailing comment
+    no_comment_once: bool,
+    /// a block mapping's `:` value indicator has been written on the current line
+    line_has_value_indicator: bool,
+    /// the next collection node written through `node_after` must be in flow style
+    force_flow_once: bool,
+    /// the next `sep` must not use a tab
+    no_tab_once: bool,
+    /// the current line started with a compact `- ` chain
+    line_is_compact: bool,
+}
+
+#[derive(Clone, Debug)]
+enum NextTok {
+    Dash,
+    Key(String),
 }
 
 impl<'o> R<'o> {
@@ -930,10 +1040,20 @@ impl<'o> R<'o> {
     fn brk(&mut self) {
         self.out.extend_from_slice(self.nl);
         self.line_start = self.out.len();
+        self.line_has_value_indicator = false;
+        self.line_is_compact = false;
     }
     /// separation inside a line: spaces, or (rarely) tabs
     fn sep(&mut self, u: &mut Src) {
-        if self.o.tab_separation && u.ratio(1, 12) {
+        let after_quote = self.o.avoid.tab_after_closing_quote && {
+            let tok_start = self.out.iter().rposition(|&b| matches!(b, b' ' | b'\t' | b'\n' | b'\r' | b'[' | b'{' | b',')).map(|p| p + 1).unwrap_or(0);
+            matches!(self.out.last(), Some(b'"' | b'\'')) || self.out.get(tok_start) == Some(&b'*')
+        };
+        if after_quote {
+            self.spaces(1);
+        }
+        let no_tab = std::mem::take(&mut self.no_tab_once);
+        if self.o.tab_separation && rare(u, 1, 12) && !no_tab {
             self.st.tabs_separation += 1;
             match u.below(3) {
                 0 => self.push("\t"),
@@ -945,12 +1065,27 @@ impl<'o> R<'o> {
             self.spaces(n);
         }
     }
+    /// Text of a *trailing* comment. Documented limitation (limitations.md "The other ways
+    /// `YamlIndex::build` fails": `b #c: d` → `KeyWithoutValue`; pinned by
+    /// tests/yaml_tab_comment_tests.rs `a # c: d`, `- a\t# c: d`): on a line that has no
+    /// mapping value indicator of its own, a `: ` inside a trailing comment makes the loader
+    /// take the line for a mapping entry whose key ends at the comment. So a trailing comment
+    /// only contains `:` when the line already carries its real `key:`.
+    fn trailing_comment_text(&mut self, u: &mut Src) -> String {
+        let t = self.comment_text(u);
+        if self.line_has_value_indicator {
+            t
+        } else {
+            t.replace(':', ";")
+        }
+    }
+
     fn comment_text(&mut self, u: &mut Src) -> String {
         const C: &[&str] = &[
             "", " c", " a comment", " key: value", " - item", " \"unclosed", " 'it's", " [ {", " } ]", " # nested #",
             " &a *a !t", " | >", " ---", " ...", " tab\there", " ünï", " %YAML 1.2", ": x", "#", " trailing  ",
         ];
-        if u.ratio(3, 4) {
+        if rare(u, 3, 4) {
             (*u.pick(C)).to_string()
         } else {
             let n = u.range(0, 10);
@@ -960,13 +1095,14 @@ impl<'o> R<'o> {
     }
     /// optional trailing comment, then the line break
     fn eol(&mut self, u: &mut Src) {
-        if self.o.comments && u.ratio(1, 7) {
+        let allowed = !std::mem::take(&mut self.no_comment_once);
+        if self.o.comments && rare(u, 1, 7) && allowed {
             // a comment must be separated from the preceding token by white space
             if !matches!(self.out.last(), Some(b' ' | b'\t')) || u.bool() {
                 self.sep(u);
             }
             self.push("#");
-            let t = self.comment_text(u);
+            let t = self.trailing_comment_text(u);
             self.push(&t);
             self.st.trailing_comments += 1;
         }
@@ -978,11 +1114,11 @@ impl<'o> R<'o> {
             return;
         }
         let mut n = 0;
-        while n < 3 && (self.o.comments || self.o.blank_lines) && u.ratio(1, 9) {
+        while n < 3 && (self.o.comments || self.o.blank_lines) && rare(u, 1, 9) {
             n += 1;
             if self.o.blank_lines && (!self.o.comments || u.bool()) {
                 // blank line; white-space-only variants only where no block scalar precedes
-                if self.block_scalar_indent.is_none() && u.ratio(1, 5) {
+                if self.block_scalar_indent.is_none() && rare(u, 1, 5) {
                     let k = u.range(1, 4);
                     self.spaces(k);
                 }
@@ -1032,14 +1168,14 @@ impl<'o> R<'o> {
             return None;
         }
         let c: Vec<usize> = self.anchors.iter().enumerate().filter(|(_, a)| a.1 == *y).map(|x| x.0).collect();
-        if c.is_empty() || !u.ratio(2, 3) {
+        if c.is_empty() || !rare(u, 2, 3) {
             return None;
         }
         Some(self.anchors[c[u.below(c.len())]].0.clone())
     }
 
     fn want_anchor(&mut self, u: &mut Src) -> Option<String> {
-        if self.o.anchors && u.ratio(1, 7) {
+        if self.o.anchors && rare(u, 1, 7) {
             Some(self.new_anchor(u))
         } else {
             None
@@ -1061,7 +1197,7 @@ impl<'o> R<'o> {
 
     fn int_text(&mut self, u: &mut Src, n: i64) -> String {
         self.st.ints += 1;
-        if n >= 0 && u.ratio(1, 12) {
+        if n >= 0 && rare(u, 1, 12) {
             format!("+{}", n)
         } else {
             n.to_string()
@@ -1095,7 +1231,7 @@ impl<'o> R<'o> {
 
     /// choose up to 3 of the fold points
     fn choose_folds(&mut self, u: &mut Src, pts: Vec<usize>, allowed: bool) -> Vec<usize> {
-        if !allowed || !self.o.multiline_scalars || pts.is_empty() || !u.ratio(1, 5) {
+        if !allowed || !self.o.multiline_scalars || pts.is_empty() || !rare(u, 1, 5) {
             return vec![];
         }
         let k = u.range(1, 3.min(pts.len()));
@@ -1156,7 +1292,7 @@ impl<'o> R<'o> {
         }
         // escaped line breaks: between two non-white characters
         let mut esc_breaks: Vec<usize> = vec![];
-        if cont.is_some() && self.o.multiline_scalars && cs.len() >= 2 && u.ratio(1, 10) {
+        if cont.is_some() && self.o.multiline_scalars && cs.len() >= 2 && rare(u, 1, 10) {
             let i = u.range(1, cs.len() - 1);
             let w = |c: char| matches!(c, ' ' | '\t');
             if !w(cs[i - 1]) && !w(cs[i]) && !folds.contains(&i) && !folds.contains(&(i - 1)) {
@@ -1196,7 +1332,7 @@ impl<'o> R<'o> {
                 _ => None,
             };
             let must = c == '"' || c == '\\' || !(c == '\t' || printable_raw(c, self.o));
-            let esc = must || u.ratio(1, 10);
+            let esc = must || rare(u, 1, 10);
             if !esc {
                 self.out.extend_from_slice(c.encode_utf8(&mut buf).as_bytes());
                 continue;
@@ -1237,7 +1373,11 @@ impl<'o> R<'o> {
         if p_ok {
             w[0] = 6;
         }
-        if self.o.optional_quotes || !p_ok {
+        let force_plain = ctx == PlainCtx::BlockKey && self.force_plain_key_col0 && self.col() == 0 && p_ok;
+        if ctx == PlainCtx::BlockKey && self.col() == 0 {
+            self.force_plain_key_col0 = false;
+        }
+        if (self.o.optional_quotes || !p_ok) && !force_plain {
             if s_ok {
                 w[1] = 2;
             }
@@ -1309,20 +1449,20 @@ impl<'o> R<'o> {
 
     /// gap inside a flow collection: nothing / spaces / (multi-line) a break + indentation
     fn flow_gap(&mut self, u: &mut Src, cont: usize, multiline: bool, may_be_empty: bool) {
-        if multiline && u.ratio(1, 3) {
-            if self.o.flow_comments && self.o.comments && u.ratio(1, 6) {
+        if multiline && rare(u, 1, 3) {
+            if self.o.flow_comments && self.o.comments && rare(u, 1, 6) {
                 if !matches!(self.out.last(), Some(b' ' | b'\t')) {
                     self.spaces(1);
                 }
                 self.push("#");
-                let t = self.comment_text(u);
+                let t = self.trailing_comment_text(u);
                 self.push(&t);
                 self.st.flow_comments += 1;
             }
             self.brk();
             let extra = *u.pick(&[0, 1, 2, 4]);
             self.spaces(cont + extra);
-        } else if !may_be_empty || u.ratio(2, 3) {
+        } else if !may_be_empty || rare(u, 2, 3) {
             let n = *u.pick(&[1, 1, 1, 2]);
             self.spaces(n);
         }
@@ -1366,7 +1506,7 @@ impl<'o> R<'o> {
         let start = self.out.len();
         self.push(if folded { ">" } else { "|" });
         // chomping: 0 trailing breaks → strip; 1 → clip (or keep); more → keep
-        let keep = trailing >= 2 || (trailing == 1 && u.ratio(1, 4));
+        let keep = trailing >= 2 || (trailing == 1 && rare(u, 1, 4));
         if trailing == 0 {
             self.push("-");
             self.st.chomp_strip += 1;
@@ -1398,8 +1538,8 @@ impl<'o> R<'o> {
                 // a value line may be broken at single spaces between non-white characters
                 let cs: Vec<char> = l.chars().collect();
                 let pts = Self::fold_points(&cs, false);
-                let folds: Vec<usize> = if !pts.is_empty() && u.ratio(1, 2) {
-                    pts.into_iter().filter(|_| u.ratio(1, 3)).collect()
+                let folds: Vec<usize> = if !pts.is_empty() && rare(u, 1, 2) {
+                    pts.into_iter().filter(|_| rare(u, 1, 3)).collect()
                 } else {
                     vec![]
                 };
@@ -1469,7 +1609,11 @@ impl<'o> R<'o> {
         }
         let anchor = self.want_anchor(u);
         // --- non-empty collection in block style
-        let block_collection = y.is_container() && !y.is_empty_container() && self.o.block && (!self.o.flow || u.ratio(3, 4));
+        let force_flow = std::mem::take(&mut self.force_flow_once) && self.o.flow;
+        let block_collection = y.is_container() && !y.is_empty_container() && self.o.block && (!self.o.flow || !rare(u, 1, 4)) && !force_flow;
+        if self.o.avoid.tab_after_dash_before_flow_or_quoted && after == After::Dash && matches!(y, Y::Str(_) | Y::Seq(_) | Y::Map(_)) {
+            self.no_tab_once = true;
+        }
         if block_collection {
             self.block_collection_after(u, y, after, col, anchor);
             return;
@@ -1486,26 +1630,38 @@ impl<'o> R<'o> {
             wrote_anchor = true;
         }
         let lead = has_indicator || wrote_anchor;
-        let bs = match y {
+        let mut bs = match y {
             Y::Str(s) if self.o.block_scalars => self.block_scalar_choice(u, s),
             _ => None,
         };
+        if self.o.avoid.block_scalar_on_compact_line && self.line_is_compact {
+            bs = None;
+        }
+        if let (Y::Str(s), After::Doc { marker }, true) = (y, after, self.o.avoid.root_block_scalar_reread) {
+            let _ = s;
+            if !marker || wrote_anchor {
+                bs = None;
+            }
+        }
         match y {
             Y::Seq(_) | Y::Map(_) => {
                 if lead {
                     self.sep(u);
                 }
-                let multiline = self.o.multiline_scalars && u.ratio(1, 6);
+                let multiline = self.o.multiline_scalars && rare(u, 1, 6);
                 if multiline {
                     self.st.multiline_flow += 1;
                 }
                 self.flow_collection(u, y, cont, multiline, anchor.clone());
                 self.eol(u);
             }
-            Y::Null if (has_indicator || wrote_anchor) && u.ratio(1, 2) => {
+            Y::Null if (has_indicator || wrote_anchor) && rare(u, 1, 2) && self.empty_value_allowed(after) => {
                 // empty node
                 let at = self.out.len();
                 self.st.null_empty += 1;
+                if self.o.avoid.comment_after_root_anchor && wrote_anchor && matches!(after, After::Doc { .. }) {
+                    self.no_comment_once = true;
+                }
                 self.spans.push(YSpan { doc: self.doc, path: self.path.clone(), role: YRole::Value, start: at, end: at, style: YStyle::Empty, value: Y::Null, anchor: anchor.clone(), alias: None, in_flow: false, multiline: false });
                 self.eol(u);
             }
@@ -1518,7 +1674,8 @@ impl<'o> R<'o> {
             }
             _ => {
                 // scalar in a flow style: same line, or the next line (more indented)
-                let next_line = has_indicator && self.o.multiline_scalars && u.ratio(1, 12);
+                let next_line = has_indicator && self.o.multiline_scalars && rare(u, 1, 12);
+                let mut cont = cont;
                 if next_line {
                     self.st.nextline_scalars += 1;
                     self.eol(u);
@@ -1526,6 +1683,9 @@ impl<'o> R<'o> {
                     // a root scalar may start at column 0; nested ones are indented past the indicator
                     let base = if col < 0 { 0 } else { cont };
                     self.content_line(u, base + w);
+                    if self.o.avoid.nextline_plain_continuation_not_deeper {
+                        cont = base + w + 1;
+                    }
                 } else if lead {
                     self.sep(u);
                 }
@@ -1538,16 +1698,44 @@ impl<'o> R<'o> {
         }
     }
 
+    /// `YAvoid::empty_value_before_col0_quoted_key`: an empty mapping value is only written
+    /// when the next content line cannot start at column 0 with a quoted key; if that line
+    /// starts with a key that can be plain, the key is forced plain.
+    fn empty_value_allowed(&mut self, after: After) -> bool {
+        if !self.o.avoid.empty_value_before_col0_quoted_key || after != After::MapKey {
+            return true;
+        }
+        let next = self.next_tok.iter().rev().find(|e| e.1.is_some()).cloned();
+        match next {
+            Some((0, Some(NextTok::Key(k)))) => {
+                if plain_ok(&k, PlainCtx::BlockKey, self.o) {
+                    self.force_plain_key_col0 = true;
+                    true
+                } else {
+                    false
+                }
+            }
+            _ => true,
+        }
+    }
+
     /// decide literal / folded for a string in block context (None = use a flow style)
     fn block_scalar_choice(&mut self, u: &mut Src, s: &str) -> Option<bool> {
-        let lit = block_scalar_shape(s, self.o, false).is_some();
+        let mut lit = block_scalar_shape(s, self.o, false).is_some();
+        if lit && self.o.avoid.literal_hash_first_then_indented {
+            let mut it = s.split('\n').filter(|l| !l.is_empty());
+            let first_hash = it.next().map_or(false, |l| l.starts_with('#'));
+            if first_hash && it.any(|l| l.starts_with(' ') || l.starts_with('\t')) {
+                lit = false;
+            }
+        }
         let fol = block_scalar_shape(s, self.o, true).is_some();
         let multi = s.contains('\n');
         let d = if !lit && !fol {
             None
         } else {
             // multi-line text mostly goes to a block scalar, single-line text sometimes
-            let take = if multi { u.ratio(5, 6) } else { u.ratio(1, 5) };
+            let take = if multi { rare(u, 5, 6) } else { rare(u, 1, 5) };
             if !take {
                 None
             } else if lit && fol {
@@ -1574,7 +1762,7 @@ impl<'o> R<'o> {
                     if i + 1 < a.len() {
                         self.flow_gap(u, cont, false, true);
                         self.push(",");
-                    } else if u.ratio(1, 20) {
+                    } else if rare(u, 1, 20) {
                         self.push(",");
                         self.st.trailing_commas += 1;
                     }
@@ -1593,14 +1781,14 @@ impl<'o> R<'o> {
                     let kstyle = self.write_flow_scalar(u, k, PlainCtx::FlowKey, None);
                     self.span(YRole::Key, ks, kstyle, Y::Str(k.clone()), None, None, true);
                     let mut spaced = false;
-                    if u.ratio(1, 12) {
+                    if rare(u, 1, 12) {
                         self.spaces(1);
                         self.st.space_before_colon += 1;
                         spaced = true;
                     }
                     self.push(":");
                     let quoted = matches!(kstyle, YStyle::Single | YStyle::Double);
-                    if quoted && !spaced && u.ratio(1, 4) {
+                    if quoted && !spaced && rare(u, 1, 4) {
                         self.st.adjacent_values += 1;
                     } else {
                         let n = *u.pick(&[1, 1, 1, 2]);
@@ -1611,7 +1799,7 @@ impl<'o> R<'o> {
                     if i + 1 < m.len() {
                         self.flow_gap(u, cont, false, true);
                         self.push(",");
-                    } else if u.ratio(1, 20) {
+                    } else if rare(u, 1, 20) {
                         self.push(",");
                         self.st.trailing_commas += 1;
                     }
@@ -1628,7 +1816,18 @@ impl<'o> R<'o> {
         let has_indicator = !matches!(after, After::Doc { marker: false });
         let is_seq = matches!(y, Y::Seq(_));
         // compact form: `- k: v` / `- - x` (no anchor: it would bind to the first key)
-        if after == After::Dash && anchor.is_none() && u.ratio(1, 2) {
+        let (len, first_nested) = match y {
+            Y::Map(m) => (m.len(), m.first().map_or(false, |e| e.1.is_container() && !e.1.is_empty_container())),
+            Y::Seq(a) => (a.len(), a.first().map_or(false, |e| e.is_container() && !e.is_empty_container())),
+            _ => (0, false),
+        };
+        let risky = self.o.avoid.compact_collection_return_after_deeper && len >= 2 && first_nested;
+        let compact_ok = !risky || self.o.flow;
+        if after == After::Dash && anchor.is_none() && compact_ok && rare(u, 1, 2) {
+            if risky {
+                self.force_flow_once = true;
+            }
+            self.line_is_compact = true;
             let s = *u.pick(&[1, 1, 1, 1, 2, 3, 4]);
             self.spaces(s);
             self.st.compact_seq_entries += 1;
@@ -1646,19 +1845,22 @@ impl<'o> R<'o> {
             self.st.anchors += 1;
         }
         if has_indicator || anchor.is_some() {
+            if self.o.avoid.comment_after_root_anchor && anchor.is_some() && matches!(after, After::Doc { .. }) {
+                self.no_comment_once = true;
+            }
             self.eol(u);
             self.st.nextline_collections += 1;
         }
         let child_col = match after {
             After::Doc { .. } => {
-                if self.o.indented_root && u.ratio(1, 12) {
+                if self.o.indented_root && rare(u, 1, 12) {
                     self.st.indented_roots += 1;
                     u.range(1, 3)
                 } else {
                     0
                 }
             }
-            After::MapKey if is_seq && anchor.is_none() && u.ratio(1, 3) => {
+            After::MapKey if is_seq && anchor.is_none() && rare(u, 1, 3) => {
                 // a block sequence may sit at its parent key's indentation
                 self.st.seq_at_parent_indent += 1;
                 col as usize
@@ -1681,7 +1883,10 @@ impl<'o> R<'o> {
         match y {
             Y::Seq(a) => {
                 self.st.block_seqs += 1;
+                self.next_tok.push((col, None));
                 for (i, x) in a.iter().enumerate() {
+                    let top = self.next_tok.len() - 1;
+                    self.next_tok[top].1 = if i + 1 < a.len() { Some(NextTok::Dash) } else { None };
                     if !(i == 0 && first_inline) {
                         self.content_line(u, col);
                     }
@@ -1693,10 +1898,14 @@ impl<'o> R<'o> {
                     self.node_after(u, x, After::Dash, col as isize);
                     self.path.pop();
                 }
+                self.next_tok.pop();
             }
             Y::Map(m) => {
                 self.st.block_maps += 1;
+                self.next_tok.push((col, None));
                 for (i, (k, v)) in m.iter().enumerate() {
+                    let top = self.next_tok.len() - 1;
+                    self.next_tok[top].1 = m.get(i + 1).map(|e| NextTok::Key(e.0.clone()));
                     if !(i == 0 && first_inline) {
                         self.content_line(u, col);
                     }
@@ -1707,9 +1916,11 @@ impl<'o> R<'o> {
                     let ks = self.out.len();
                     let kstyle = self.write_flow_scalar(u, k, PlainCtx::BlockKey, None);
                     self.span(YRole::Key, ks, kstyle, Y::Str(k.clone()), None, None, false);
-                    if u.ratio(1, 14) {
+                    let avoid_sp = self.o.avoid.compact_quoted_key_space_colon && i == 0 && first_inline && kstyle != YStyle::Plain;
+                    if rare(u, 1, 14) && !avoid_sp {
                         // white space between an implicit key and its `:` is separation
-                        if self.o.tab_separation && u.ratio(1, 3) {
+                        let avoid_tab = self.o.avoid.tab_after_closing_quote && kstyle != YStyle::Plain;
+                        if self.o.tab_separation && rare(u, 1, 3) && !avoid_tab {
                             self.push("\t");
                             self.st.tabs_separation += 1;
                         } else {
@@ -1718,9 +1929,11 @@ impl<'o> R<'o> {
                         self.st.space_before_colon += 1;
                     }
                     self.push(":");
+                    self.line_has_value_indicator = true;
                     self.node_after(u, v, After::MapKey, col as isize);
                     self.path.pop();
                 }
+                self.next_tok.pop();
             }
             _ => unreachable!(),
         }
@@ -1735,7 +1948,7 @@ impl<'o> R<'o> {
         }
         self.doc_starts.push(self.out.len());
         // an empty-rendered null root needs the marker; so does every document after the first
-        let marker = !first || u.ratio(1, 3);
+        let marker = !first || rare(u, 1, 3);
         self.after_keep = false;
         self.block_scalar_indent = None;
         self.last_is_block_scalar = false;
@@ -1748,7 +1961,7 @@ impl<'o> R<'o> {
         if marker && self.out.len() > before && !matches!(self.out[before], b'\n' | b'\r') {
             self.st.inline_after_marker += 1;
         }
-        if self.o.doc_end_markers && u.ratio(1, 4) {
+        if self.o.doc_end_markers && rare(u, 1, 4) {
             // `...` ends the document (a keep-chomped scalar has already ended its lines)
             self.push("...");
             self.st.doc_end_markers += 1;
@@ -1789,6 +2002,13 @@ pub fn render(stream: &[Y], u: &mut Src, o: &YOpts) -> RenderedYaml {
         after_keep: false,
         block_scalar_indent: None,
         last_is_block_scalar: false,
+        next_tok: vec![],
+        force_plain_key_col0: false,
+        no_comment_once: false,
+        line_has_value_indicator: false,
+        force_flow_once: false,
+        no_tab_once: false,
+        line_is_compact: false,
     };
     r.st.line_break = name;
     for (i, y) in stream.iter().enumerate() {
@@ -1798,10 +2018,26 @@ pub fn render(stream: &[Y], u: &mut Src, o: &YOpts) -> RenderedYaml {
     if r.col() == 0 {
         r.decorate(u, 0);
     }
-    if o.omit_final_newline && !r.last_is_block_scalar && r.out.ends_with(nl) && r.out.len() > nl.len() && u.ratio(1, 8) {
+    if o.omit_final_newline && !r.last_is_block_scalar && r.out.ends_with(nl) && r.out.len() > nl.len() && rare(u, 1, 8) {
         let n = r.out.len() - nl.len();
         r.out.truncate(n);
         r.st.no_final_newline += 1;
+    }
+    if o.avoid.empty_node_at_eof_len64 && r.out.len() % 64 == 0 {
+        if let Some(last) = r.spans.last() {
+            if last.style == YStyle::Empty && !r.after_keep {
+                // an empty node ends the stream: move the end of the text off the 64-byte grid
+                if r.out.ends_with(nl) {
+                    r.out.extend_from_slice(nl);
+                } else {
+                    r.out.push(b' ');
+                    r.out.push(b'#');
+                }
+                if r.out.len() % 64 == 0 {
+                    r.out.extend_from_slice(nl);
+                }
+            }
+        }
     }
     RenderedYaml { text: r.out, spans: r.spans, containers: r.containers, doc_starts: r.doc_starts, stats: r.st }
 }
